@@ -118,6 +118,14 @@ def make_body(rng, st, short, header_pos, bom, with_decl, latin=False):
         items += old + [("B", "")] + atoms(rng.randint(2, 7))
     elif header_pos == "middle":
         pre = [a for a in atoms(rng.randint(1, 4))]
+        if rng.random() < 0.25:
+            # the very text of the header once more further up, as an example inside an ignore block: ordinary body lines
+            s_ = trees.comment_block(st, ["REUSE-IgnoreStart"]).split("\n")
+            e_ = trees.comment_block(st, ["REUSE-IgnoreEnd"]).split("\n")
+            pre += [("A", ln) for ln in s_] + [("A", ln) for _, ln in old] + [("A", ln) for ln in e_] + [("B", "")] + atoms(1)
+        if decl and rng.random() < 0.3 and st["single"] and decl.startswith(st["single"]):
+            # a script that carries another script (here-document): the declaration line again, directly above the header
+            old = [("H", decl)] + old
         # nothing before the old header may itself be an own-style comment directly touching it
         items += pre + [("B", "")] + old + [("B", "")] + atoms(rng.randint(1, 5))
     else:
